@@ -69,5 +69,26 @@ func targeted() []Spec {
 		{Name: "f2.sysl", Blocks: []Block{{App: "A0", Items: []interface{}{Anno{Name: "n804", Form: fNested, Nested: [][]string{{"é"}}}, shareT("f3"), shareE("log")}}}},
 		{Name: "f3.sysl", Blocks: []Block{{App: "A0", Items: []interface{}{Anno{Name: "n806", Form: fMulti, Lines: []string{"doc é", "more"}}, Anno{Name: "n805", Form: fEmptyArr}, shareT("f4"), shareE("validate")}}}},
 	}}
-	return []Spec{one, two, three, four, five}
+	// round 3: enum / alias / union with members, parameters, doc-string statements (several lines = one statement; at the
+	// end of a scope; continuing the doc string an earlier declaration of the endpoint ended with), a mixin, import
+	// statements, a body-less application re-opened in every file
+	en := TypeD{Form: tEnum, Name: "En1", Attrs: []Attr{{Kind: 1, Name: "e"}, {Kind: 0, Name: "ea", Val: "é"}}, Annos: []Anno{{Name: "n1", Val: "v"}}, Members: []string{"A", "B"}}
+	al := TypeD{Form: tAlias, Name: "Al1", Attrs: []Attr{{Kind: 1, Name: "x"}}, Annos: []Anno{{Name: "n2", Items: []string{"a", "中"}}}, Target: "sequence of int"}
+	ali := TypeD{Form: tAlias, Name: "Al2", Target: "string", Inline: true}
+	un := TypeD{Form: tUnion, Name: "Un1", Attrs: []Attr{{Kind: 1, Name: "u"}}, Annos: []Anno{{Name: "n3", Form: fMulti, Lines: []string{"doc é"}}}, Members: []string{"int", "sequence of string", "T0"}}
+	une := TypeD{Form: tUnion, Name: "Un2"}
+	doc := func(ls ...string) Stmt { return Stmt{Kind: sDoc, Lines: ls} }
+	pe := EpD{Name: "E7", Params: []Field{{Name: "p", Type: "int", Attrs: []Attr{{Kind: 1, Name: "pp"}}}, {Name: "q", Type: "T0"}},
+		Stmts: []Stmt{doc("first é", "second"), {Kind: sRet, Text: "ok <: string"}, {Kind: sIf, Text: "c1", Body: []Stmt{{Kind: sText, Text: "work"}, doc("inside")}}, doc("at the end")}}
+	pe2 := EpD{Name: "E7", Params: []Field{{Name: "p", Type: "string"}}, Stmts: []Stmt{doc("continues the last"), {Kind: sText, Text: "log"}}}
+	pev := EpD{Event: true, Name: "V7", Params: []Field{{Name: "z", Type: "int"}}, Attrs: []Attr{{Kind: 1, Name: "ev"}}, Stmts: txt("validate")}
+	pr := Rest{Path: "/q", Name: "/q", Methods: []Method{{Verb: "POST", Params: []Field{{Name: "b", Type: "T0", Attrs: []Attr{{Kind: 0, Name: "ba", Val: "ß"}}}}, Query: "q=int", Stmts: txt("work")}}}
+	six := Spec{Files: []FileD{
+		{Name: "f0.sysl", Imports: []string{"f2", "f1"}, ImpIdx: []int{2, 1}, Blocks: []Block{
+			{App: "A0", Items: []interface{}{TypeD{Name: "T0", Fields: []Field{{Name: "f0", Type: "int"}}}, en, al, Mixin{App: "Mx"}, ali, un, une, pe, pev, pr}},
+			{App: "Legacy"}}},
+		{Name: "f1.sysl", Imports: []string{"f2"}, ImpIdx: []int{2}, Blocks: []Block{{App: "Legacy"}, {App: "A0", Items: []interface{}{pe2}}}},
+		{Name: "f2.sysl", Blocks: []Block{{App: "Legacy"}, {App: "Mx", Attrs: []Attr{{Kind: 1, Name: "abstract"}}}}},
+	}}
+	return []Spec{one, two, three, four, five, six}
 }
